@@ -147,15 +147,24 @@ def run_sim(case, fail):
         dels = []
 
         def remove(p, *a, **k):
-            dels.append(("f", os.path.abspath(p)))
-            return real_remove(p, *a, **k)
+            # what the handler tracks at this moment (the expired record has already been popped): inside a batch
+            # the tracked set grows file by file, so "older file kept" has to be judged against this set
+            tracked_now = set(sim.h.records) | {os.path.abspath(p)}
+            try:
+                r = real_remove(p, *a, **k)
+            except OSError:
+                # the file was already gone: nothing is deleted, but the handler has dropped its record
+                dels.append(("x", os.path.abspath(p), tracked_now))
+                raise
+            dels.append(("f", os.path.abspath(p), tracked_now))
+            return r
 
         def rmdir(p, *a, **k):
             try:
                 r = real_rmdir(p, *a, **k)
             except OSError:
                 raise
-            dels.append(("d", os.path.abspath(p)))
+            dels.append(("d", os.path.abspath(p), None))
             return r
 
         os.remove, os.rmdir = remove, rmdir
@@ -285,7 +294,7 @@ def run_sim(case, fail):
                         else:
                             sim.rb._verify_ringbuffer_files(set(sim.h.records.keys()))
                             for p in list(sim.model):
-                                if not os.path.exists(p) and ("f", p) not in dels:
+                                if not os.path.exists(p) and p not in [x[1] for x in dels]:
                                     sim.model.pop(p)
                         for i in range(len(sim.files)):
                             sim.m_add(i, sizes)
@@ -296,8 +305,12 @@ def run_sim(case, fail):
                 # ---- judge the deletions of this step, replayed in order against the model
                 work = {k: list(v) for k, v in sim.model.items()}
                 # files expired during this step but (re-)added to the model by m_add above do not exist any more
-                for kind, p in dels:
+                for kind, p, tracked_now in dels:
                     if kind == "d":
+                        continue
+                    if kind == "x":
+                        work.pop(p, None)
+                        sim.model.pop(p, None)
                         continue
                     info["expiries"] += 1
                     if os.path.basename(p).startswith("tmp.") or os.path.basename(p).endswith("_properties.h5") \
@@ -312,7 +325,7 @@ def run_sim(case, fail):
                             fail("deleted-untracked-file", "step %d %r deleted %s which was not tracked" % (si, op, os.path.relpath(p, base)))
                             continue
                     g, k, s = work[p]
-                    older = [q for q, v in work.items() if v[0] == g and v[1] < k]
+                    older = [q for q, v in work.items() if v[0] == g and v[1] < k and q in tracked_now]
                     if older:
                         fail("not-oldest-first", "step %d %r deleted %s while older %s is kept" % (
                             si, op, os.path.relpath(p, base), os.path.relpath(older[0], base)))
@@ -324,7 +337,7 @@ def run_sim(case, fail):
                             si, op, os.path.relpath(p, base), tot, limits, len([1 for v in work.values() if v[0] == g])))
                     del work[p]
                     sim.model.pop(p, None)
-                for kind, p in dels:
+                for kind, p, _t in dels:
                     if kind == "d" and (not p.startswith(sim.root + os.sep)):
                         fail("deleted-protected-file", "rmdir %s" % p)
                 # ---- bookkeeping == model
